@@ -20,7 +20,7 @@ pub fn gen_case(seed: u64, profile: &str, pkg: Pkg) -> ContCase {
     let (n_items, item_len, n_entries) = if profile == "content-larger" { (5, 600, 5) } else { (2, 30, 160) };
     let mut items = vec![];
     for i in 0..n_items {
-        items.push(Item { len: item_len + i * 7, ent: *rng.pick(&[Ent::Low4, Ent::High]), hint: if i % 2 == 0 { Hint::Yes } else { Hint::No }, src: Src::Mem, dup_of: None });
+        items.push(Item { len: item_len + i * 7, ent: *rng.pick(&[Ent::Low4, Ent::High]), hint: if i % 2 == 0 { Hint::Yes } else { Hint::No }, src: Src::Mem, dup_of: None, cat_of: None });
     }
     let content = ContentCase { seed: rng.next(), comp, cached: false, items };
     let files = StoreDef {
@@ -34,7 +34,7 @@ pub fn gen_case(seed: u64, profile: &str, pkg: Pkg) -> ContCase {
         sort: None,
         unique_keys: false,
     };
-    let dir = DirCase { seed: rng.next(), vstores: vec![false], stores: vec![files], indexes: vec![IndexDef { name: "files".into(), store: 0, offset: 0, count: n_entries as u32 }] };
+    let dir = DirCase { seed: rng.next(), vstores: vec![false], stores: vec![files], indexes: vec![IndexDef { name: "files".into(), store: 0, offset: 0, count: n_entries as u32 }], defer: 0 };
     ContCase { content, dir, pkg, extra: vec![] }
 }
 
